@@ -13,6 +13,7 @@ PoolSrc == {[mode |-> m, ctx |-> c, src |-> s] : m \in {"bp", "comb"}, c \in Col
 PoolCtx == {[mode |-> m, ctx |-> c, src |-> NoSrc] : m \in {"bp", "comb"}, c \in ColsOver({"a", "b"}) \cup ColsOver({"b", "c"})}
 \* small mixed pool for simulation of 3-4 block specs
 SmallSrcs == {NoSrc, [mode |-> "bp", cols |-> [k \in {"e"} |-> 2], select |-> {"*"}, rename |-> <<>>],
+              [mode |-> "bp", cols |-> [k \in {"e"} |-> 2], select |-> {"*"}, rename |-> [k \in {"e"} |-> "c"]],
               [mode |-> "comb", cols |-> [k \in {"d", "e"} |-> IF k = "d" THEN 2 ELSE 3], select |-> {"*"}, rename |-> [k \in {"e"} |-> "a"]]}
 PoolMix == {[mode |-> m, ctx |-> c, src |-> s] : m \in {"bp", "comb"},
                c \in UNION {[S -> {1, 2, 3}] : S \in {{}, {"a"}, {"b"}, {"c"}, {"a", "b"}, {"d"}}}, s \in SmallSrcs}
